@@ -2,7 +2,9 @@
    Moving print_pqr above the charge guard, wrapping a stage in a swallowing
    handler, or opening the output path early makes a lemma here fail. *)
 From Coq Require Import String List Bool Arith.
+From Coq Require Import ZArith.
 From PV Require Import Model.Pipeline Proofs.Pipeline Generated.Stages.
+From PV Require Model.States Generated.GuardC12.
 Import ListNotations.
 Local Open Scope string_scope.
 
@@ -104,3 +106,22 @@ Example guard_order_nonvacuous :
      mk_sdesc "print_pqr" "main_driver" Output [] [] [("main.print_pqr", ["output_pqr"])] true false] = false
   /\ guard_is_last_compute [mk_sdesc "print_pqr" "main_driver" Output [] [] [] true false] = false.
 Proof. repeat split; reflexivity. Qed.
+
+(* The tolerance of the guard is the model's constant and nothing else: the call in
+   main.non_trivial hands noninteger_charge the total only (or, explicitly, CHARGE_ERROR) - never
+   a tolerance computed from the structure -, the default of utilities.noninteger_charge is
+   CHARGE_ERROR, its test is |charge - round(charge)| > |tol|, and config.CHARGE_ERROR is exactly
+   TOL / SCALE = 1e-3 of Model/States.v (guard_ok), the constant C12_guard_never_fires_<FF> and
+   the differential tie of the guard block are stated against.  Generated/GuardC12.v is
+   regenerated from the current sources (gen/guard_c12.py, fail-closed). *)
+Definition guard_tolerance_ok : bool :=
+  forallb (fun a => String.eqb a "CHARGE_ERROR" || String.eqb a "error_tol=CHARGE_ERROR") GuardC12.guard_extra_args
+  && Nat.leb (List.length GuardC12.guard_extra_args) 1
+  && String.eqb GuardC12.guard_default_tol "CHARGE_ERROR"
+  && String.eqb GuardC12.guard_error_expr "abs(charge - round(charge))"
+  && String.eqb GuardC12.guard_test "abs_error > abs(error_tol)"
+  && Z.eqb GuardC12.charge_error_e8 States.TOL.
+
+Lemma generated_guard_tolerance :
+  guard_tolerance_ok = true /\ GuardC12.charge_error_e8 = States.TOL /\ (States.TOL * 1000 = States.SCALE)%Z.
+Proof. vm_compute. repeat split; reflexivity. Qed.
